@@ -23,6 +23,12 @@ THREAD_CFG_EXCLUDE = ('ind/',)          # user-supplied stateful post-lexer: exc
 
 
 def _strategy(rng, first_use=False):
+    if first_use and rng.random() < 0.25:
+        # park a thread between two of the initialiser's OWN statements (offset counted in the frame of the lazy-initialisation branch and
+        # of the function it calls directly): the window between two publications at the end of a long initialiser - "scanner published,
+        # callback table not yet" - which a line offset from the start does not reach and a random strategy does not hold open long enough
+        return {'kind': 'window', 'targets': sorted({int(10 ** rng.uniform(0, 1.7)) for _ in range(rng.choice([1, 2, 3]))}), 'p2': rng.choice([0.0, 0.002]),
+                'offset': rng.randint(1, 24), 'own': True}
     if first_use and rng.random() < 0.6:
         # every thread is inside the lazy initialisers at the same time: fine-grained interleaving is what finds a table published
         # half-built (a window of a dozen lines deep inside an initialiser), coarse strategies run each initialiser to its end
